@@ -386,7 +386,7 @@ func c02Instances(add func(*Instance), thorough bool, inv int) {
 			{P("ak", 1, "akeys", 4, "acow", 1, "ac0", 201), 0, 65535, 0, 0, 3, 0},                                // one short run, cow
 			{two, 0, 262143, 0, 0, 7, 1},
 			{P("ak", 1, "akeys", 4, "acow", 0, "ac0", 13), 30720, 31, 30800, 31, -1, 1}, // range on a 4096-element array
-			{P("ak", 3, "akeys", 4, "acow", 1, "ac0", 1, "ac1", 1, "ac2", 1), 0, 7, 131064, 15, -1, 0},    // two whole leading chunks dropped, the third (shared) chunk survives
+			{P("ak", 3, "akeys", 4, "acow", 1, "ac0", 1, "ac1", 1, "ac2", 1), 0, 7, 131064, 15, -1, map[int]int{6: 1, 7: 0, 8: 1}[m]}, // RemoveRange drops two whole leading chunks, the third (shared) chunk survives
 		}
 		for _, r := range rgs {
 			pp := with(base, "m", m, "sb", r.sb, "sm", r.sm, "eb", r.eb, "em", r.em, "len", r.ln)
@@ -430,8 +430,11 @@ func c09Instances(add func(*Instance), thorough bool) {
 	// the repair step has to bring it back)
 	for _, g := range []int{5, 7} {
 		add(&Instance{Func: "VerifC11Aggregate", Params: P("L", 7, "eff", 1, "inv", 1, "g", g, "lst", 12, "w", 1, "xb", 56, "xm", 15,
-			"ak", 2, "akeys", 4, "ac0", 21, "ac1", 21, "bk", 2, "bkeys", 4, "bc0", 224, "bc1", 21, "ck", 1, "ckeys", 4, "cc0", 21)})
+			"ak", 2, "akeys", 4, "ac0", 21, "ac1", 21, "bk", 2, "bkeys", 4, "bc0", 224, "bc1", 21, "ck", 1, "ckeys", 4, "cc0", 21), Tier: 1}) // 2.5 min each
 	}
+	// quick: ParHeapOr on one shared chunk (it has no FastOr fallback)
+	add(&Instance{Func: "VerifC11Aggregate", Params: P("L", 7, "eff", 1, "inv", 1, "g", 7, "lst", 12, "w", 1, "xb", 56, "xm", 15,
+		"ak", 1, "akeys", 4, "ac0", 21, "bk", 1, "bkeys", 4, "bc0", 224, "ck", 1, "ckeys", 4, "cc0", 21)})
 	// whole-bitmap transforms: static Flip inside / across short runs, AddOffset64 splitting run, array and bitmap chunks
 	flipBase := P("L", 7, "eff", 1, "inv", 1, "xb", 0, "xm", -1)
 	add(&Instance{Func: "VerifC16Flip", Params: with(flipBase, "ak", 2, "akeys", 4, "ac0", 224, "ac1", 21, "sb", 56, "sm", 15, "eb", 60, "em", 15, "len", -1)})
